@@ -70,6 +70,10 @@ def cases(tier, seed):
         ends = ENDINGS if tier == 'thorough' else [ENDINGS[(i + seed) % 3]]
         for e in ends:
             yield dict(state=st, base=base, op=list(op), ending=e, seed=seed * 7919 + i)
+            if e == 'fin' or op[0] == 'cmd_garbage':
+                # the peer closes right behind its last byte: no time to answer in between
+                yield dict(state=st, base=base, op=list(op), ending='fin', fin_now=True,
+                           seed=seed * 7919 + i)
     n = 600 if tier == 'quick' else 40000
     states = sorted(STATES)
     for i in range(n):
@@ -213,6 +217,10 @@ def run_case(case):
             if g:
                 rig.advance(g)
         drv.history.append('~bytes:%s' % stream[:24].hex())
+        fin_now = bool(case.get('fin_now')) and not rig.sock_gone()
+        if fin_now:
+            rig.peer_fin()
+            drv.history.append('~fin')
         settled = rig.settle()
         rig.wire_take()
         wire = rig.wire_bytes[wire0:]
@@ -231,7 +239,7 @@ def run_case(case):
         if wrem or 'MALFORMED' in wire_kinds:
             v('emitted-malformed-pdu', 'wire %r rem %r' % (wire_kinds, wrem))
         # two-branch reaction oracle
-        br = _branches(model0, framed)
+        br = _branches(model0, framed) if not fin_now else None
         judged = br is not None
         if judged:
             obs = (wire_kinds, ind_kinds, rig.state(), rig.sock_gone(), rig.timer_running())
@@ -298,6 +306,7 @@ def _fin(res, drv, case, nontrivial):
     st.update(res.get('stats', {}))
     res.update(digest=sim.digest.hexdigest(), steps=sim.steps, vsecs=sim.now - 1000.0, stats=st,
                nontrivial=nontrivial,
-               sched_sig='%s/%s/%s/%s' % (case['state'], case['base'], case['op'], case['ending']),
+               sched_sig='%s/%s/%s/%s/%s' % (case['state'], case['base'], case['op'], case['ending'],
+                                          case.get('fin_now', False)),
                sample={'case': case, 'history': list(drv.history), 'final': drv.rig.state()})
     return res
